@@ -218,8 +218,10 @@ pub fn compose_std_command<S: AsRef<OsStr>, SE: extensions::ShellExtensions>(
     }
 
     // Redirect stdin, if applicable.
+    // (A standard descriptor that has been closed - `<&-`, `>&-` - is closed in the child too.)
     match context.try_fd(OpenFiles::STDIN_FD) {
-        Some(OpenFile::Stdin(_)) | None => (),
+        None => cmd.close_fd(OpenFiles::STDIN_FD),
+        Some(OpenFile::Stdin(_)) => (),
         Some(stdin_file) => {
             let as_stdio: Stdio = stdin_file.try_into()?;
             cmd.stdin(as_stdio);
@@ -228,7 +230,8 @@ pub fn compose_std_command<S: AsRef<OsStr>, SE: extensions::ShellExtensions>(
 
     // Redirect stdout, if applicable.
     match context.try_fd(OpenFiles::STDOUT_FD) {
-        Some(OpenFile::Stdout(_)) | None => (),
+        None => cmd.close_fd(OpenFiles::STDOUT_FD),
+        Some(OpenFile::Stdout(_)) => (),
         Some(stdout_file) => {
             let as_stdio: Stdio = stdout_file.try_into()?;
             cmd.stdout(as_stdio);
@@ -237,7 +240,8 @@ pub fn compose_std_command<S: AsRef<OsStr>, SE: extensions::ShellExtensions>(
 
     // Redirect stderr, if applicable.
     match context.try_fd(OpenFiles::STDERR_FD) {
-        Some(OpenFile::Stderr(_)) | None => {}
+        None => cmd.close_fd(OpenFiles::STDERR_FD),
+        Some(OpenFile::Stderr(_)) => {}
         Some(stderr_file) => {
             let as_stdio: Stdio = stderr_file.try_into()?;
             cmd.stderr(as_stdio);
